@@ -78,6 +78,7 @@ func (g *genSet) write(repo, verifDir string) {
 	sum, _ := os.ReadFile(filepath.Join(verifDir, "harness", "go.sum"))
 	writeFile(filepath.Join(g.dir, "go.sum"), string(sum))
 	writeFile(filepath.Join(g.dir, "ext", "ext.go"), pg.ExtFile())
+	writeFile(filepath.Join(g.dir, "ext", "debug", "debug.go"), "// Package debug is a user package whose name collides with runtime/debug.\npackage debug\n\nconst Marker = 2\n")
 	writeFile(filepath.Join(g.dir, "othertime", "othertime.go"), "// Package othertime is a user package that files import under the name time.\npackage othertime\n\nconst Marker = 1\n")
 	var pkgs []string
 	per := g.per
